@@ -1,0 +1,214 @@
+//go:build verif
+
+package pilosa
+
+// Exported access to the unexported fragment type for the /verif harness
+// (properties C07, C10). No behaviour, only access: every method forwards to
+// the fragment method of the same name. The only things assembled here are
+// what pilosa itself assembles around a fragment: the construction done by
+// view.newFragment, the close+open pair used on restart, and one iteration of
+// the body of snapshotQueueWorker so that the harness can play the background
+// snapshot worker at a point of its choosing.
+
+import (
+	"context"
+)
+
+// VerifFragment wraps a fragment.
+type VerifFragment struct {
+	f *fragment
+	q chan *fragment
+}
+
+// VerifFragmentOptions selects what view.newFragment would derive from the field.
+type VerifFragmentOptions struct {
+	Shard     uint64
+	CacheType string // "" = DefaultCacheType
+	CacheSize uint32 // 0 = DefaultCacheSize
+	Kind      string // "set" | "mutex" | "bool" | "bsi"
+	MaxOpN    int    // 0 = default
+	// OwnQueue gives the fragment a private snapshot queue with no worker
+	// goroutine: the harness calls WorkerStep. Without it the fragment has no
+	// queue and enqueueSnapshot snapshots synchronously (as in a fragment
+	// without a holder).
+	OwnQueue bool
+}
+
+// VerifNewFragment constructs (but does not open) a fragment at path.
+func VerifNewFragment(path string, o VerifFragmentOptions) *VerifFragment {
+	var flags byte
+	if o.Kind == "bsi" {
+		flags = roaringFlagBSIv2
+	}
+	f := newFragment(path, "i", "f", viewStandard, o.Shard, flags)
+	if o.CacheType != "" {
+		f.CacheType = o.CacheType
+	}
+	if o.CacheSize != 0 {
+		f.CacheSize = o.CacheSize
+	}
+	if o.MaxOpN != 0 {
+		f.MaxOpN = o.MaxOpN
+	}
+	f.RowAttrStore = nopStore
+	switch o.Kind {
+	case "mutex":
+		f.mutexVector = newRowsVector(f)
+	case "bool":
+		f.mutexVector = newBoolVector(f)
+	}
+	v := &VerifFragment{f: f}
+	if o.OwnQueue {
+		v.q = make(chan *fragment, 4)
+		f.snapshotQueue = v.q
+	}
+	return v
+}
+
+func (v *VerifFragment) Open() error  { return v.f.Open() }
+func (v *VerifFragment) Close() error { return v.f.Close() }
+func (v *VerifFragment) Path() string { return v.f.path }
+
+// CachePath is the path of the persisted row-count cache.
+func (v *VerifFragment) CachePath() string { return v.f.cachePath() }
+
+// Reopen closes and opens the fragment (a clean restart of this shard).
+func (v *VerifFragment) Reopen() error {
+	if err := v.f.Close(); err != nil {
+		return err
+	}
+	return v.f.Open()
+}
+
+// ---- write paths
+
+func (v *VerifFragment) SetBit(rowID, columnID uint64) (bool, error) {
+	return v.f.setBit(rowID, columnID)
+}
+func (v *VerifFragment) ClearBit(rowID, columnID uint64) (bool, error) {
+	return v.f.clearBit(rowID, columnID)
+}
+func (v *VerifFragment) SetRow(row *Row, rowID uint64) (bool, error) { return v.f.setRow(row, rowID) }
+func (v *VerifFragment) ClearRow(rowID uint64) (bool, error)         { return v.f.clearRow(rowID) }
+func (v *VerifFragment) BulkImport(rowIDs, columnIDs []uint64, clear bool) error {
+	return v.f.bulkImport(rowIDs, columnIDs, &ImportOptions{Clear: clear})
+}
+func (v *VerifFragment) ImportRoaring(data []byte, clear bool) error {
+	return v.f.importRoaring(context.Background(), data, clear)
+}
+func (v *VerifFragment) SetValue(columnID uint64, bitDepth uint, value int64) (bool, error) {
+	return v.f.setValue(columnID, bitDepth, value)
+}
+func (v *VerifFragment) ClearValue(columnID uint64, bitDepth uint, value int64) (bool, error) {
+	return v.f.clearValue(columnID, bitDepth, value)
+}
+func (v *VerifFragment) ImportValue(columnIDs []uint64, values []int64, bitDepth uint, clear bool) error {
+	return v.f.importValue(columnIDs, values, bitDepth, clear)
+}
+
+// ---- snapshots
+
+func (v *VerifFragment) Snapshot() error { return v.f.Snapshot() }
+
+// EnqueueSnapshot calls enqueueSnapshot under the fragment lock, as every caller does.
+func (v *VerifFragment) EnqueueSnapshot() {
+	v.f.mu.Lock()
+	v.f.enqueueSnapshot()
+	v.f.mu.Unlock()
+}
+
+// QueueLen is the number of fragments waiting in the private snapshot queue.
+func (v *VerifFragment) QueueLen() int { return len(v.q) }
+
+// WorkerStep runs one iteration of the body of snapshotQueueWorker on the private
+// queue; it reports false when the queue is empty.
+func (v *VerifFragment) WorkerStep() (ran bool, err error) {
+	select {
+	case f := <-v.q:
+		err = f.protectedSnapshot(true)
+		f.snapshotCond.Broadcast()
+		return true, err
+	default:
+		return false, nil
+	}
+}
+
+// Snapshotting reads the snapshotting flag.
+func (v *VerifFragment) Snapshotting() bool {
+	v.f.mu.Lock()
+	defer v.f.mu.Unlock()
+	return v.f.snapshotting
+}
+
+// OpN reads the number of operations since the last snapshot.
+func (v *VerifFragment) OpN() int {
+	v.f.mu.Lock()
+	defer v.f.mu.Unlock()
+	return v.f.opN
+}
+
+func (v *VerifFragment) MaxOpN() int { return v.f.MaxOpN }
+
+// SetMaxOpN sets the exported MaxOpN field (any value, including 0: snapshot after every change).
+func (v *VerifFragment) SetMaxOpN(n int) {
+	v.f.mu.Lock()
+	v.f.MaxOpN = n
+	v.f.mu.Unlock()
+}
+
+// ---- read paths
+
+func (v *VerifFragment) Row(rowID uint64) *Row { return v.f.row(rowID) }
+func (v *VerifFragment) Bit(rowID, columnID uint64) (bool, error) {
+	v.f.mu.Lock()
+	defer v.f.mu.Unlock()
+	return v.f.bit(rowID, columnID)
+}
+func (v *VerifFragment) Value(columnID uint64, bitDepth uint) (int64, bool, error) {
+	return v.f.value(columnID, bitDepth)
+}
+
+// Rows calls fragment.rows(start, filters...) with the filters selected: column (filterColumn),
+// rowsIn (filterWithRows), limit (filterWithLimit, applied last as its doc requires).
+func (v *VerifFragment) Rows(start uint64, column *uint64, rowsIn []uint64, useRowsIn bool, limit *uint64) []uint64 {
+	var filters []rowFilter
+	if column != nil {
+		filters = append(filters, filterColumn(*column))
+	}
+	if useRowsIn {
+		filters = append(filters, filterWithRows(rowsIn))
+	}
+	if limit != nil {
+		filters = append(filters, filterWithLimit(*limit))
+	}
+	return v.f.rows(start, filters...)
+}
+func (v *VerifFragment) ForEachBit(fn func(rowID, columnID uint64) error) error {
+	return v.f.forEachBit(fn)
+}
+func (v *VerifFragment) Blocks() []FragmentBlock { return v.f.Blocks() }
+func (v *VerifFragment) BlockData(id int) (rowIDs, columnIDs []uint64) {
+	return v.f.blockData(id)
+}
+func (v *VerifFragment) Checksum() []byte     { return v.f.Checksum() }
+func (v *VerifFragment) InvalidateChecksums() { v.f.InvalidateChecksums() }
+func (v *VerifFragment) MinRowID() (uint64, bool) {
+	v.f.mu.Lock()
+	defer v.f.mu.Unlock()
+	return v.f.minRowID()
+}
+
+// TopN calls fragment.top with N and RowIDs only.
+func (v *VerifFragment) TopN(n int, rowIDs []uint64) ([]Pair, error) {
+	return v.f.top(topOptions{N: n, RowIDs: rowIDs})
+}
+
+// RecalculateCache forwards to fragment.RecalculateCache.
+func (v *VerifFragment) RecalculateCache() { v.f.RecalculateCache() }
+
+// CacheCount reads the row-count cache entry of a row (0 when absent).
+func (v *VerifFragment) CacheCount(rowID uint64) uint64 {
+	v.f.mu.Lock()
+	defer v.f.mu.Unlock()
+	return v.f.cache.Get(rowID)
+}
